@@ -234,8 +234,9 @@ def _match_factors(
         )
         end_factor = _clean_pop(end_factors, end_dimension)
 
-        # TODO: this doesn't seem right in light of complex units with mixed exponents
-        exponent = -1 if any(e < 0 for e in end_dimension.exponents) else 1
+        # _splat files a unit with a negative exponent under the inverse of its
+        # dimension, so the unit's own dimension tells which side of the ratio it is on
+        exponent = 1 if end_factor.dimension is end_dimension else -1
 
         plan.append((1, combined_start_factor, end_factor, exponent))
 
@@ -248,13 +249,13 @@ def _cancel_factors(
     plan: RoughPlan = []
 
     for dimension in list(factors):
-        exponent = -1 if any(e < 0 for e in dimension.exponents) else 1
         inverse = dimension**-1
         while dimension in factors and inverse in factors:
             end_factor = _clean_pop(factors, dimension)
             if dimension is inverse:
                 continue
             start_factor = _clean_pop(factors, inverse)
+            exponent = 1 if end_factor.dimension is dimension else -1
 
             if invert:
                 plan.append((1, start_factor, end_factor, -exponent))
